@@ -109,7 +109,7 @@ def xml_nesting(data):
     return ok, [["o", e[1]] if e[0] == "open" else ["c", e[1]] for e in evs if e[0] in ("open", "close")], "".join(e[1] for e in evs if e[0] == "text")
 
 
-_TEX = _re.compile(r"\\begin\{([^}]*)\}|\\end\{([^}]*)\}|\\verb(.)|\\.|[{}]|%[^\n]*", _re.S)
+_TEX = _re.compile(r"\\begin\{([^}]*)\}|\\end\{([^}]*)\}|\\verb(.)|\\.|\$\$|\$|[{}]|%[^\n]*", _re.S)
 
 
 def latex_nesting(data):
@@ -128,6 +128,12 @@ def latex_nesting(data):
         elif m.group(2) is not None: ev.append(["c", m.group(2)])
         elif m.group(3) is not None:
             j = s.find(m.group(3), i); i = (j + 1) if j >= 0 else len(s)
+        elif tok in ("\\(", "\\[", "$", "$$"):
+            # math is the author's own LaTeX, passed through as written: opaque up to its closing delimiter
+            close = {"\\(": "\\)", "\\[": "\\]", "$": "$", "$$": "$$"}[tok]
+            j = s.find(close, i)
+            while j > 0 and close[0] == "$" and s[j - 1] == "\\": j = s.find(close, j + 1)
+            i = (j + len(close)) if j >= 0 else len(s)
         elif tok == "{": ev.append(["o", "{"])
         elif tok == "}": ev.append(["c", "{"])
     return True, ev, s
